@@ -237,6 +237,10 @@ def _units_and_support(db, rep):
                 r6.ok(inst, 'byte quantities only', f.loc(c))
     if n_sites == 0:
         r6.broken('no byte-level string edit found in cclLang (anchor vanished)')
+    r10 = rep.rule('r10', 'INHERITED-TEXTS: every user-edited text the aggregator carries over from the previous version (text definition, convention, term) is passed through the previous-name -> new-name translation, like its siblings', 3)
+    _inherited_texts(db, r10)
+    r9 = rep.rule('r9', 'WHOLE-IDENTIFIER: names are located in expression texts only through the lexer (TranslateRS / MathLexer tokens); no function of the schema layers searches a text for a name with std::string::find and then edits the text at the position found (F1 is a substring of F10)', 1)
+    _no_substring_search(db, r9)
     r8 = rep.rule('r8', 'TRANSLATE-ONCE: a copied constituent has the names in its texts rewritten exactly once by the complete old->new map (a single-item inserter already renames the copy\'s own alias; a later complete translation requires every text to be stored again from the source)', 4)
     from rules.shared_translate_once import translate_once_rule
     translate_once_rule(db, r8)
@@ -274,3 +278,61 @@ def _codepoint_source(f, n, depth):
         if r:
             return r
     return None
+
+
+def _no_substring_search(db, r9):
+    scanned, hits = 0, []
+    for f in sorted(db.functions, key=lambda x: x.name):
+        if f.body < 0 or f.rec.get('dependent') or not f.name.startswith(('ccl::semantic::', 'ccl::ops::', 'ccl::oss::', 'ccl::src::')):
+            continue
+        scanned += 1
+        finds = []
+        for n in f.calls():
+            cs = n.get('cs') or ''
+            if cs.startswith(('std::basic_string::', 'std::__cxx11::basic_string::', 'std::basic_string_view::')) and cs.split('::')[-1] in ('find', 'rfind') and n.get('args'):
+                needle = f.strip(f.stmts[n['args'][0]])
+                if needle is not None and needle['k'] not in ('StringLiteral', 'CharacterLiteral', 'IntegerLiteral'):
+                    finds.append(n)
+        if not finds:
+            continue
+        muts = [n for n in f.calls() if (n.get('cs') or '').startswith(('std::basic_string::', 'std::__cxx11::basic_string::')) and (n.get('cs') or '').split('::')[-1] in ('insert', 'replace', 'erase')]
+        if muts:
+            hits.append((f, finds[0], muts[0]))
+    if not scanned:
+        r9.broken('no function of the schema layers was scanned')
+        return
+    for f, fn_, mu in hits:
+        r9.violation('::'.join(f.name.split('::')[2:]), f.loc(fn_), '`%s` locates a name by substring search and `%s` edits the text at the positions found: a name that is a prefix of another (F1 / F10, X1 / X11) is found inside it' % ((fn_.get('txt') or '')[:40], (mu.get('txt') or '')[:40]))
+    if not hits:
+        r9.ok('schema-layers', '%d functions scanned: none searches a text for a name by substring and edits it at the position found' % scanned)
+
+
+def _inherited_texts(db, r10):
+    f = db.fn('ccl::ops::RSAggregator::TransferIheritedData', required=False)
+    if f is None:
+        r10.broken('anchor vanished: RSAggregator::TransferIheritedData')
+        return
+    setters = [n for n in f.calls() if (n.get('cs') or '').split('::')[-1] in ('SetDefinitionFor', 'SetConventionFor', 'SetTermFor') and len(n.get('args', [])) >= 2]
+    if not setters:
+        r10.broken('RSAggregator::TransferIheritedData stores no inherited text')
+        return
+    for n in setters:
+        what = (n.get('cs') or '').split('::')[-1][3:-3]
+        # (a) a Translate* call in the same branch
+        branch = next((a for a in f.ancestors(n) if a['k'] == 'IfStmt'), None)
+        scope = f.stmts[branch['then']] if branch is not None else f.stmts[f.body]
+        translated_after = any((c.get('cs') or '').split('::')[-1].startswith('Translate') for c in f.calls(scope))
+        # (b) the stored value is a local that was run through SubstituteGlobals / TranslateRS
+        val = f.strip(f.stmts[n['args'][1]])
+        translated_before = False
+        if val is not None and val['k'] == 'DeclRefExpr' and val.get('dk') == 'local':
+            for c in f.calls():
+                if (c.get('cs') or '').split('::')[-1] in ('SubstituteGlobals', 'TranslateRS') and c.get('args'):
+                    a0 = f.strip(f.stmts[c['args'][0]])
+                    if a0 is not None and a0.get('did') == val.get('did'):
+                        translated_before = True
+        inst = 'inherited-' + what.lower()
+        if translated_after or translated_before:
+            r10.ok(inst, 'translated %s it is stored' % ('after' if translated_after else 'before'), f.loc(n))
+        else:
+            r10.violation(inst, f.loc(n), 'the inherited %s is stored as it was in the previous version (`%s`): a name that denotes another constituent in the new version (previous X2 is now X3) keeps pointing at the wrong one, while the sibling texts are translated' % (what.lower(), (n.get('txt') or '')[:70]))
